@@ -468,12 +468,16 @@ class Status:
         fileData = dict(tuple([el.split('=', 1) for el in fileData if el.find('=') != -1]))
 
         # VV: here we are reversing the encodings we performed in self.writeToStream
-        if 'error-description' in fileData:
-            fileData['error-description'] = fileData['error-description'].encode('utf-8').decode('unicode_escape')
+        # VV: un-escape after Status.__init__() has stripped the values, otherwise the leading/trailing blanks and
+        # newlines of the description (e.g. the newline that ends a traceback) are lost
+        error_description = fileData.pop('error-description', None)
 
         # FIXME: StageWeights need to be written to file??
         # Or set by StatusMonitor on restart??
-        return Status(filename, fileData, ast.literal_eval(fileData['stages']))
+        ret = Status(filename, fileData, ast.literal_eval(fileData['stages']))
+        if error_description is not None:
+            ret.data['error-description'] = error_description.encode('utf-8').decode('unicode_escape')
+        return ret
 
     def __init__(self, filename, data, stages):
 
